@@ -243,8 +243,12 @@ base64_decode_fmt(const uint8_t *src, const size_t src_size,
 	int error;
 	size_t src_size_real;
 
-	if (src_size > dst_size)
+	if (src_size > dst_size) { /* dst is the scratch for the filtered copy. */
+		if (NULL != dcd_size_ret) {
+			(*dcd_size_ret) = src_size;
+		}
 		return (ENOBUFS);
+	}
 	error = base64_en_copy(src, dst, src_size, &src_size_real);
 	if (0 != error)
 		return (error);
